@@ -52,6 +52,8 @@ package utility
 //@   ensures [value] number != nil ==> @dv(result) * real(@dpow10(18)) == real(old(big(number)))
 //@   ensures [nil]   number == nil ==> @dv(result) == real(0)
 //@   ensures [valid] @dvalid(result) && len(result) > 0
+//@   # formatting is a function of the value (C01: receipts carry this text)
+//@   ensures [textfn!assumed] number != nil ==> result == amtText(old(big(number)))
 //@   modifies nothing
 
 //@ func Uint64ToBigInt
@@ -69,7 +71,14 @@ package utility
 //@   ensures [exact] result1 == nil && len(s) > 0 && (exists m Int :: real(m) == decval(s) * real(1000000000000000000) && m < 1000000000000000000000000000000000000000000000000000000000000000000000000000000000000000000000000 && m > 0 - 1000000000000000000000000000000000000000000000000000000000000000000000000000000000000000000000000) ==> real(big(result0)) == decval(s) * real(1000000000000000000)
 //@   ensures [valid] decvalid(s) ==> result1 == nil
 //@   ensures [fresh] result1 == nil ==> fresh(result0)
+//@   # parsing is a function of the text (C01: the same request text gives the same amount on every node); not
+//@   # derived from the body - big.Rat parsing is a library model here
+//@   ensures [parsefn!assumed] (result1 == nil) == parsedOK(s) && (result1 == nil ==> big(result0) == parsedAmt(s))
 //@   modifies nothing
+
+//@ spec abstract fn parsedOK(s string) bool
+//@ spec abstract fn parsedAmt(s string) Int
+//@ spec abstract fn amtText(n Int) string
 
 // Decimal rescaling between the 18-decimal internal unit and a token's own decimals (C18's conversion applied
 // to an integer): abstract functions of value and decimals; results are fresh big integers.
